@@ -36,7 +36,7 @@ for pid in ids:
             "evidence_file": "/verif/evidence/%s.json" % pid,
             "replay_cmd_template": "python3 /verif/check.py %s --replay {path}" % pid,
             "engine": "lean-model",
-            "level_claimed": {"category": "proof", "text": c["level_text"], "design_ref": c.get("design_ref", "DESIGN.md section 3, " + pid)},
+            "level_claimed": {"category": "proof", "text": c["level_text"], "design_ref": c.get("design_ref", "DESIGN.md section 5, " + pid)},
             "level_note": c["level_note"],
             "technique": c["technique"],
         })
